@@ -365,6 +365,137 @@ def intersectionDarts (b2 : Nat → Nat) (base : Nat) (slots : List Slot) (keys 
   let gs := groupsOf (hitsOf b2 slots) keys
   intersectionIds slots.length gs (slicesFrom base (gs.map (·.2.length)))
 
+/-! ## step 1 for the whole geometry: `new_segments`; step 4: `generate_edge_data`
+    (`routines/compute_intersecs.rs`, `routines/compute_new_edges.rs`) -/
+
+/-- `GeometryVertex` -/
+inductive GV where
+  | regular (i : Nat)
+  | poi (i : Nat)
+  | intersec (i : Nat)
+  | corner (d : Nat)
+  deriving DecidableEq, Repr
+
+/-- `make_geometry_vertex!` -/
+def mkGV (poi : List Nat) (v : Nat) : GV := if poi.contains v then .poi v else .regular v
+
+/-- `GridCellId::l1_dist` of the cells of the two ends: the number of slots / identifiers the segment receives -/
+def segDist (g : GGrid) (va vb : Pt) : Nat :=
+  (((cellOf g vb).1 : Int) - ((cellOf g va).1 : Int)).natAbs + (((cellOf g vb).2 : Int) - ((cellOf g va).2 : Int)).natAbs
+
+/-- the vertex chain `v1, intersections …, v2` of one segment whose identifiers start at `start`: the intersection at
+    position `p` of the chain is `Intersec(start + p)` — `start + (n - 1 - p)` in the two backward straight cases, where
+    identifiers are handed out against the segment — or, in the diagonal branch with `t = 0`, `IntersecCorner(dart)` -/
+def chainOf (g : GGrid) (eps : Rat) (poi : List Nat) (verts : List Pt) (start : Nat) (seg : Nat × Nat) : List GV :=
+  let va := verts.getD seg.1 (0, 0)
+  let vb := verts.getD seg.2 (0, 0)
+  let i : Int := ((cellOf g vb).1 : Int) - ((cellOf g va).1 : Int)
+  let j : Int := ((cellOf g vb).2 : Int) - ((cellOf g va).2 : Int)
+  let cs := crossingsOf g eps va vb
+  let mid := cs.zipIdx.map fun x =>
+    if i ≠ 0 ∧ j ≠ 0 ∧ x.1.t = 0 then GV.corner x.1.dart
+    else GV.intersec (start + (if (j = 0 ∧ i < -1) ∨ (i = 0 ∧ j < -1) then cs.length - 1 - x.2 else x.2))
+  mkGV poi seg.1 :: (mid ++ [mkGV poi seg.2])
+
+/-- `windows(2)` -/
+def pairsOf {α : Type} : List α → List (α × α)
+  | a :: b :: rest => (a, b) :: pairsOf (b :: rest)
+  | _ => []
+
+/-- every `(key, value)` the `flat_map` of step 1 yields, in order (collected into a `HashMap`: for equal keys the
+    last one wins — `segNext`) -/
+def segmentsFrom (g : GGrid) (eps : Rat) (poi : List Nat) (verts : List Pt) : Nat → List (Nat × Nat) → List (GV × GV)
+  | _, [] => []
+  | start, seg :: rest =>
+      pairsOf (chainOf g eps poi verts start seg) ++
+        segmentsFrom g eps poi verts (start + segDist g (verts.getD seg.1 (0, 0)) (verts.getD seg.2 (0, 0))) rest
+
+def segmentsOf (g : GGrid) (eps : Rat) (poi : List Nat) (verts : List Pt) (segs : List (Nat × Nat)) : List (GV × GV) :=
+  segmentsFrom g eps poi verts 0 segs
+
+/-- `intersection_metadata` of the whole geometry -/
+def slotsAll (g : GGrid) (eps : Rat) (verts : List Pt) (segs : List (Nat × Nat)) : List Slot :=
+  segs.flatMap fun seg => slotsOf g eps (verts.getD seg.1 (0, 0)) (verts.getD seg.2 (0, 0))
+
+/-- `new_segments[key]` -/
+def segNext (segs : List (GV × GV)) (k : GV) : Option GV := (segs.reverse.find? (fun p => p.1 = k)).map (·.2)
+
+def GV.isCross : GV → Bool
+  | .intersec _ => true
+  | .corner _ => true
+  | _ => false
+
+/-- outcome of a routine that may panic (`HashMap` index with a missing key) or, in the model only, run out of fuel -/
+inductive Res (α : Type) where
+  | ok (a : α)
+  | panic
+  | diverges
+  deriving Repr, DecidableEq
+
+/-- `MapEdge` -/
+structure MEdge where
+  start : Nat
+  inter : List Pt
+  stop : Nat
+  deriving DecidableEq, Repr
+
+/-- the `while !matches!(end, Intersec | IntersecCorner)` walk: points of interest are collected, regular vertices
+    skipped -/
+def walkEdge (segs : List (GV × GV)) (verts : List Pt) : Nat → GV → List Pt → Res (GV × List Pt)
+  | 0, _, _ => .diverges
+  | f + 1, e, acc =>
+      match e with
+      | .intersec _ => .ok (e, acc)
+      | .corner _ => .ok (e, acc)
+      | .poi v =>
+          match segNext segs e with
+          | none => .panic
+          | some e' => walkEdge segs verts f e' (acc ++ [verts.getD v (0, 0)])
+      | .regular _ =>
+          match segNext segs e with
+          | none => .panic
+          | some e' => walkEdge segs verts f e' acc
+
+/-- the `MapEdge` built for the key `k` (an `Intersec` / `IntersecCorner`): start dart on the far side of the start
+    intersection, end dart at the end intersection -/
+def edgeOfKey (b1 b2 : Nat → Nat) (verts : List Pt) (segs : List (GV × GV)) (darts : List Nat) (k : GV) : Res MEdge :=
+  match segNext segs k with
+  | none => .panic
+  | some v =>
+    match walkEdge segs verts (segs.length + 1) v [] with
+    | .panic => .panic
+    | .diverges => .diverges
+    | .ok (e, inter) =>
+        let dStart := match k with
+          | .intersec i => b2 (darts.getD i 0)
+          | .corner d => b2 (b1 (b2 d))
+          | _ => 0
+        let dEnd := match e with
+          | .intersec i => darts.getD i 0
+          | .corner d => d
+          | _ => 0
+        .ok { start := dStart, inter := inter, stop := dEnd }
+
+/-- `generate_edge_data`: one edge per key, in the iteration order `keys` of the `HashMap` (its `Intersec` /
+    `IntersecCorner` keys); the content of each edge does not depend on that order -/
+def edgeData (b1 b2 : Nat → Nat) (verts : List Pt) (segs : List (GV × GV)) (darts : List Nat) : List GV → Res (List MEdge)
+  | [] => .ok []
+  | k :: ks =>
+      match edgeOfKey b1 b2 verts segs darts k with
+      | .panic => .panic
+      | .diverges => .diverges
+      | .ok e =>
+          match edgeData b1 b2 verts segs darts ks with
+          | .ok es => .ok (e :: es)
+          | r => r
+
+/-- the keys of the map that start an edge, in first-insertion order -/
+def crossKeys (segs : List (GV × GV)) : List GV := ((segs.map (·.1)).filter GV.isCross).eraseDups
+
+/-- `remove_redundant_poi` (grisubal only): points of interest on a grid line are dropped -/
+def removeRedundantPoi (verts : List Pt) (poi : List Nat) (cx cy ox oy : Rat) : List Nat :=
+  poi.filter fun i => !(onLine ox cx (verts.getD i (0, 0)).1 || onLine oy cy (verts.getD i (0, 0)).2)
+
 /-- the point of the segment at parameter `s` -/
 def segPoint (va vb : Pt) (s : Rat) : Pt := (va.1 + s * (vb.1 - va.1), va.2 + s * (vb.2 - va.2))
 
